@@ -13,16 +13,31 @@ executor/executor.py, data_server.py, the zmq/shm transport -- is exercised HERE
                          deadline enforced from outside, session kill + unlink, reaper)              -> State.outputs
     oracle: every requested output delivered, with the reference value; the run ends before the deadline; no error.
 
-Values are ints / strings / (nested) tuples built injectively from (task, output index, every bound parameter with
-its name), so a value bound to the wrong parameter, a default winning over an upstream value, outputs published
-under the wrong names, or a stale / foreign copy all change some requested value.
+Values are ints / strings / (nested) tuples / bytes / NumPy arrays (several dtypes, 0-d to 2-d, non-contiguous views) /
+`Box`es (a type that refuses pickle and travels only through the serde pair registered in `JobInstance.serdes`), built
+injectively from (task, output index, every bound parameter with its name), so a value bound to the wrong parameter, a
+default winning over an upstream value, outputs published under the wrong names, or a stale / foreign copy all change
+some requested value.
+
+Besides the values, every run leaves a TRACE in a private directory (no hook in /repo): each task body appends
+(task, pid, CUDA_VISIBLE_DEVICES, what the worker's own `entrypoint` frame holds at that moment) when it is entered, the
+harness-side executor launcher records the pids of the workers it started, and the runner logs every Bridge command
+(task_sequence / transmit / fetch / purge / shutdown) in the order the controller issued them. From that trace, and from
+nothing the controller keeps in `State`, the oracle additionally decides: each task body ran at most once and in the
+process of the worker the controller had dispatched it to; a task that needs a GPU ran where a device of its own exists;
+purges reach the workers; and it tells a hang at start-up (no task body entered) from a hang of the job.
 """
 from __future__ import annotations
 
+import hashlib
 import json
 import os
 import random
+import re
+import shutil
 import sys
+import tempfile
+import threading
 import time
 import zlib
 
@@ -30,38 +45,213 @@ DEFAULT_OUT = "0"          # earthkit.workflows.graph.Node.DEFAULT_OUTPUT, the s
 # declaration order of the output names differs from their sorted order (but for the last of each list)
 OUT_NAMES = {2: [["b", "a"], ["z", "y"], ["1", "0"], ["out", "aux"], ["lo", "hi"], ["a", "b"]],
              3: [["b", "c", "a"], ["z", "a", "m"], ["2", "0", "1"], ["mid", "hi", "lo"], ["a", "b", "c"]]}
-KINDS = ("real-cluster-wrong-value", "real-cluster-missing-output", "real-cluster-hang", "real-cluster-error")
+KINDS = ("real-cluster-wrong-value", "real-cluster-missing-output", "real-cluster-hang", "real-cluster-error",
+         "real-cluster-wrong-worker", "real-cluster-task-ran-twice", "real-cluster-gpu-task-without-device",
+         "real-cluster-gpu-device-shared", "real-cluster-purge-not-applied", "real-cluster-source-does-not-hold",
+         "real-cluster-purge-before-consumers-done", "real-cluster-purge-before-delivered", "real-cluster-purge-while-unanswered")
+RETS = ("int", "tuple", "str", "sum")                 # the plain kinds (every family)
+RETS_RICH = ("nd", "nd", "bytes")                     # + with `rich`: ndarray / bytes values
+STARTUP_S = 20.0           # executors forked, data servers listening, every host registered at the Bridge (healthy: 1-3 s, under load up to ~11 s)
+JOB_S = 25.0               # controller.impl.run from its first line to its return, shutdown of the executors included (healthy: 0.3-2 s, under load up to ~8 s)
+DEADLINE_S = STARTUP_S + JOB_S + 5.0      # outer deadline of the runner subprocess; the two inner ones are enforced by the runner itself
+TRACE_DIR = None           # set in the runner before the executors are forked (inherited by every worker)
 
 
 # ----------------------------------------------------------------------------- values (run inside the workers too)
 
+MOD = "ekw.c01_real"       # the importable name of this module (the runner re-enters it under that name, see the bottom)
+
+
+class Box:
+    """A value type with a custom serde: it REFUSES pickle, so it can leave a worker only through the (ser, des) pair the
+    job registers in `JobInstance.serdes` (controller: impl.py `SerdeRegistry.register`, worker: entrypoint.py)."""
+    __slots__ = ("payload",)
+
+    def __init__(self, payload):
+        self.payload = payload
+
+    def __repr__(self):
+        return f"Box({self.payload!r})"
+
+    def __eq__(self, other):
+        return type(other) is Box and other.payload == self.payload
+
+    def __hash__(self):
+        return hash(("Box", self.payload))
+
+    def __reduce_ex__(self, protocol):
+        raise TypeError("c01 Box travels only through the serde registered in JobInstance.serdes")
+
+
+def ser_box(b):
+    return b"BOX1" + b.payload.encode("utf-8")
+
+
+def des_box(raw):
+    raw = bytes(raw)                      # shm hands out a (read-only) memoryview
+    if raw[:4] != b"BOX1":
+        raise ValueError(f"not a serialised Box: {raw[:16]!r}")
+    return Box(raw[4:].decode("utf-8"))
+
+
+def _is_nd(v):
+    return type(v).__module__ == "numpy" and type(v).__name__ == "ndarray"
+
+
 def _fmt(v):
+    """injective rendering of an input value inside the value of a downstream task"""
     if isinstance(v, str):
         return "<" + v + ">"
     if isinstance(v, tuple):
         return "(" + ",".join(_fmt(x) for x in v) + ")"
+    if isinstance(v, bytes):
+        return "b<" + v.hex() + ">"
+    if isinstance(v, Box):
+        return "Box<" + v.payload + ">"
+    if _is_nd(v):
+        return f"nd<{v.dtype.str};{list(v.shape)};{v.tolist()!r}>"
     return repr(v)
+
+
+def _nd(s):
+    """A NumPy array determined by the string s: dtype, rank, byte order and memory layout vary with s."""
+    import numpy as np
+    n = zlib.crc32(s.encode())
+    base = [n % (1 << 31)] + [(n >> j) % 1009 for j in range(0, 22, 2)]      # 12 ints
+    k = (n >> 5) % 8
+    if k == 0:
+        return np.array(base[:1 + n % 5], dtype=np.int64)
+    if k == 1:
+        return np.array(base[:6], dtype=np.float64).reshape(2, 3) / 8.0
+    if k == 2:
+        return np.array(base[0], dtype=np.int64)                             # 0-d
+    if k == 3:
+        return np.array(base, dtype=np.int64)[::2]                           # non-contiguous view
+    if k == 4:
+        return np.array(base[:4], dtype=">i8")                               # big-endian
+    if k == 5:
+        return np.asfortranarray(np.array(base[:6], dtype=np.float64).reshape(3, 2))
+    if k == 6:
+        return np.array(list(n.to_bytes(4, "big")) + base[1:3], dtype=np.uint16)
+    return np.array(base[:6], dtype=np.int64).reshape(2, 3).T                # transposed view
 
 
 def _val(ret, tag, i, bound):
     """The value of output `i` of task `tag` whose parameters were bound as `bound` = [(name, value)...]."""
     if ret == "tuple":
-        return (tag, i) + tuple(x for pair in bound for x in pair)
+        return (tag, i) + tuple(("Box", x.payload) if isinstance(x, Box) else x for pair in bound for x in pair)
     if ret == "sum" and all(type(v) is int for _, v in bound):
         return 1000 * (i + 1) + sum((j + 2) * v for j, (_, v) in enumerate(bound))
     s = f"{tag}#{i}[" + ";".join(f"{n}={_fmt(v)}" for n, v in bound) + "]"
     if ret == "str":
         return s
+    if ret == "bytes":
+        return s.encode()
+    if ret == "box":
+        return Box(s)
+    if ret == "nd":
+        return _nd(s)
     return zlib.crc32(s.encode())
 
 
+def _canon(v):
+    if type(v) is str:
+        return repr(v)
+    if type(v) is int or v is None:
+        return repr(v)
+    if type(v) is tuple:
+        return "(" + ", ".join(_canon(x) for x in v) + ("," if len(v) == 1 else "") + ")"
+    if type(v) is bytes:
+        return "bytes:" + v.hex()
+    if type(v) is Box:
+        return "Box:" + repr(v.payload)
+    if _is_nd(v):
+        return f"nd:{v.dtype.str}:{list(v.shape)}:{v.tolist()!r}"
+    return f"{type(v).__module__}.{type(v).__qualname__}:{v!r}"
+
+
 def enc(v):
-    """value -> what travels in the runner's JSON result line (exactly comparable)"""
-    return v if (type(v) is int or v is None) else repr(v)
+    """value -> what travels in the runner's JSON result line (exactly comparable; type, dtype and shape are part of it)"""
+    return v if (type(v) is int or v is None) else _canon(v)
 
 
 def _dec_static(v):
     return tuple(_dec_static(x) for x in v) if isinstance(v, list) else v
+
+
+# ----------------------------------------------------------------------------- trace (written inside the workers / the runner)
+
+def _ds(d):
+    return f"{d.task}|{d.output}"
+
+
+def _worker_view():
+    """What the worker process this code runs in holds right now, read from the locals of its own `entrypoint` frame
+    (no hook in /repo): its identity, the datasets it believes available on its host, its Memory."""
+    try:
+        f = sys._getframe(2)
+        while f is not None:
+            if f.f_code.co_name == "entrypoint" and "availab_ds" in f.f_locals and "runnerContext" in f.f_locals:
+                loc = f.f_locals
+                mem = loc.get("memory")
+                return {"worker": repr(loc["runnerContext"].workerId), "avail": sorted(_ds(d) for d in loc["availab_ds"]),
+                        "local": sorted(_ds(d) for d in getattr(mem, "local", {})), "bufs": sorted(_ds(d) for d in getattr(mem, "bufs", {}))}
+            f = f.f_back
+    except Exception:
+        pass
+    return {}
+
+
+def _trace(task):
+    """First statement of every generated task body."""
+    d = TRACE_DIR
+    if not d:
+        return
+    try:
+        rec = {"task": task, "pid": os.getpid(), "ppid": os.getppid(), "cuda": os.environ.get("CUDA_VISIBLE_DEVICES"), "t": time.time()}
+        rec.update(_worker_view())
+        with open(os.path.join(d, f"body.{os.getpid()}.jsonl"), "a") as f:
+            f.write(json.dumps(rec) + "\n")
+    except Exception:
+        pass
+
+
+def _log_ctrl(rec):
+    d = TRACE_DIR
+    if not d:
+        return
+    try:
+        rec["t"] = time.time()
+        with open(os.path.join(d, "ctrl.jsonl"), "a") as f:
+            f.write(json.dumps(rec) + "\n")
+    except Exception:
+        pass
+
+
+def read_trace(d):
+    """-> {"bodies": [...], "ctrl": [...], "execs": {host: {...}}, "env": {...}} (whatever the run left behind)"""
+    tr = {"bodies": [], "ctrl": [], "execs": {}, "env": None}
+    try:
+        names = sorted(os.listdir(d))
+    except OSError:
+        return tr
+    for n in names:
+        try:
+            with open(os.path.join(d, n)) as f:
+                txt = f.read()
+            if n.startswith("body."):
+                tr["bodies"] += [json.loads(l) for l in txt.splitlines() if l.strip()]
+            elif n == "ctrl.jsonl":
+                tr["ctrl"] = [json.loads(l) for l in txt.splitlines() if l.strip()]
+            elif n.startswith("exec."):
+                e = json.loads(txt)
+                tr["execs"][e["host"]] = e
+            elif n == "env.json":
+                tr["env"] = json.loads(txt)
+        except (OSError, ValueError):
+            continue                       # a line cut off by the session kill
+    tr["bodies"].sort(key=lambda b: b.get("t", 0))
+    return tr
 
 
 # ----------------------------------------------------------------------------- generator
@@ -84,7 +274,7 @@ def _pick_src(rng, up, consumed, avoid=()):
     return rng.choices(pool, weights=w)[0]
 
 
-def _gen_task(rng, name, up, consumed, force=None):
+def _gen_task(rng, name, up, consumed, force=None, rets=RETS):
     npos = rng.choice([0, 1, 1, 2, 2, 3])
     ndef = rng.choice([0, 1, 1, 2])
     kwo = rng.choice(["", "", "", "r", "s", "rs"])
@@ -131,27 +321,72 @@ def _gen_task(rng, name, up, consumed, force=None):
         else:
             bind.append(dict(source(0.6), p=p["n"], how="kw"))
     outs = list(rng.choice(OUT_NAMES[nout])) if nout > 1 else [rng.choice([DEFAULT_OUT, DEFAULT_OUT, DEFAULT_OUT, "o", "res"])]
-    return {"name": name, "ret": rng.choice(["int", "tuple", "str", "sum"]), "outs": outs, "params": params, "bind": bind}
+    return {"name": name, "ret": rng.choice(list(rets)), "outs": outs, "params": params, "bind": bind}
 
 
-def gen_spec(rng, dense=False):
-    """One random job + cluster shape. `dense`: 4-6 tasks, the features the quick tier must not miss are forced
-    (multi-output generator source, a second source task, keyword edge into a defaulted parameter, >=2 positional
-    edges from different tasks, >=2 workers in total), every sink task's outputs requested."""
-    n = rng.choice([4, 5, 6]) if dense else rng.choice([2, 3, 3, 4, 4, 5, 5, 6, 6])
-    hosts, workers = rng.choice([(2, 1), (2, 2), (1, 2), (2, 1)]) if dense else rng.choice([(1, 1), (1, 2), (2, 1), (2, 2), (2, 1)])
+SHAPES_DENSE = [(2, 1), (2, 2), (1, 2), (2, 1), (2, 3), (1, 3)]
+SHAPES_3H = [(3, 1), (3, 2), (3, 3), (3, 1)]
+SHAPES_ANY = [(1, 1), (1, 2), (2, 1), (2, 2), (2, 1), (3, 1), (1, 3), (2, 3), (3, 2)]
+THEMES = ("three-hosts", "gpu", "serde", "wide-gpu", "chain")
+
+
+def gen_spec(rng, dense=False, theme=None):
+    """One random job + cluster shape. `dense`: 4-7 tasks, the features the quick tier must not miss are forced
+    (multi-output generator source, further source tasks, keyword edge into a defaulted parameter, >=2 positional
+    edges from different tasks, >=2 workers in total), every sink task's outputs requested.
+    `theme`: three-hosts (3 hosts x 1-3 workers) | gpu (CASCADE_GPU_COUNT set, some tasks need a GPU) | serde (the job
+    registers a custom serde, Box / ndarray / bytes values) | wide-gpu (1 host x 11-13 GPU workers, one GPU task for each)
+    | chain (a linear chain on one host: every intermediate is purged while later tasks still run).
+    Independently of the theme any job may draw GPU needs, rich values and the serde with a small probability."""
+    if theme == "wide-gpu":
+        return _gen_wide(rng)
+    if theme == "chain":
+        return _gen_chain(rng)
+    three = theme == "three-hosts"
+    if dense:
+        hosts, workers = rng.choice(SHAPES_3H if three else SHAPES_DENSE)
+        n = 0                             # set below, from the number of forced sources
+    else:
+        n = rng.choice([2, 3, 3, 4, 4, 5, 5, 6, 6])
+        hosts, workers = rng.choice(SHAPES_3H if three else SHAPES_ANY)
+    serdes = theme == "serde" or rng.random() < 0.25
+    rich = theme == "serde" or rng.random() < 0.3
+    gpus = None
+    if theme == "gpu":
+        hosts, workers = rng.choice([(1, 2), (1, 3), (2, 2), (2, 3), (2, 2)])
+        gpus = rng.randint(1, workers)
+        nsrc = 2
+    elif rng.random() < 0.2:
+        gpus = rng.randint(1, workers)
+    rets = RETS + (RETS_RICH if rich else ()) + (("box", "box") if serdes else ())
+    # one host's workers take every source of a component they can: a second host joins in (and inter-host transfers happen)
+    # only when more tasks are computable at once than one host has workers -> workers + 1 sources on several hosts
+    nsrc = max(2, min(workers + 1, 4)) if hosts > 1 else 2
+    if dense:
+        n = nsrc + rng.choice([2, 3, 4] if nsrc < 4 else [2, 3])
     perm = list(range(n))
     rng.shuffle(perm)                     # topological order != order of the names
     names = [f"t{p}" for p in perm]
     if rng.random() < 0.3:
         i = rng.randrange(n)
         names[i] = names[i] + ".v"        # dotted task name (DatasetId repr is "<task>.<output>")
-    force = {0: "gen-src", 1: "src", 2: "kw-default", 3: "pos2"} if dense else {}
+    force = {}
+    if dense:
+        force = {0: "gen-src", nsrc: "kw-default", nsrc + 1: "pos2"}
+        force.update({i: "src" for i in range(1, nsrc)})
     tasks, up, consumed = [], [], {}
     for i in range(n):
-        t = _gen_task(rng, names[i], up, consumed, force.get(i))
+        t = _gen_task(rng, names[i], up, consumed, force.get(i), rets)
+        if gpus is not None and rng.random() < (0.5 if theme == "gpu" else 0.35):
+            t["gpu"] = True
         tasks.append(t)
         up += [(t["name"], o, j == len(t["outs"]) - 1) for j, o in enumerate(t["outs"])]
+    if theme == "gpu" and not any(t.get("gpu") for t in tasks):
+        rng.choice(tasks)["gpu"] = True
+    if theme == "serde" and not any(t["ret"] == "box" for t in tasks):
+        tasks[0]["ret"] = "box"           # the generator source: several Boxes, consumed downstream
+    if theme == "serde" and not any(t["ret"] == "nd" for t in tasks):
+        tasks[1]["ret"] = "nd"
     has_consumer = {t for (t, _o) in consumed}
     ext = []
     for t, o, _last in up:
@@ -162,7 +397,49 @@ def gen_spec(rng, dense=False):
     if not ext:
         ext.append(list(rng.choice(up)[:2]))
     rng.shuffle(ext)
-    return {"tasks": tasks, "ext": ext, "hosts": hosts, "workers": workers}
+    spec = {"tasks": tasks, "ext": ext, "hosts": hosts, "workers": workers}
+    if gpus is not None:
+        spec["gpus"] = gpus
+    if serdes:
+        spec["serdes"] = True
+    if theme:
+        spec["theme"] = theme
+    return spec
+
+
+def _gen_wide(rng):
+    """1 host x W workers (W = 11..13, every one a GPU worker), W..W+2 independent GPU source tasks and one GPU join that
+    consumes an output of every one of them (ONE component: all sources are computable at once and every worker gets one):
+    worker numbers with two digits, devices 10.."""
+    w = rng.choice([11, 12, 13])
+    n = w + rng.randint(0, 2)
+    tasks, up, consumed = [], [], {}
+    for i in range(n):
+        t = _gen_task(rng, f"g{i}", [], consumed, "src", ("int", "str", "int"))
+        t["gpu"] = True
+        tasks.append(t)
+        up.append((t["name"], rng.choice(t["outs"])))
+    join = {"name": "join", "ret": rng.choice(["int", "str"]), "outs": [DEFAULT_OUT], "gpu": True,
+            "params": [{"n": f"p{j}", "kind": "pos"} for j in range(n)],
+            "bind": [{"src": list(up[j]), "p": f"p{j}", "how": "pos", "idx": j} for j in range(n)]}
+    tasks.append(join)
+    ext = [["join", DEFAULT_OUT]] + [list(d) for d in rng.sample(up, 2)]
+    return {"tasks": tasks, "ext": ext, "hosts": 1, "workers": w, "gpus": w, "theme": "wide-gpu"}
+
+
+def _gen_chain(rng):
+    """A linear chain c0 -> c1 -> ... of 5-7 single-output tasks on ONE host (1-2 workers), only the end requested: the
+    controller purges c(k-2)'s output while c(k) runs, so every task from the fourth on starts after purges of datasets
+    its worker had been told about."""
+    n = rng.choice([5, 6, 7])
+    tasks = []
+    for i in range(n):
+        params = [{"n": "a", "kind": "pos"}] if i else []
+        bind = [{"src": [f"c{i - 1}", DEFAULT_OUT], "p": "a", "how": "pos", "idx": 0}] if i else []
+        if rng.random() < 0.5:
+            params.append({"n": "k", "kind": "def", "default": _rand_value(rng)})
+        tasks.append({"name": f"c{i}", "ret": rng.choice(["int", "str", "tuple"]), "outs": [DEFAULT_OUT], "params": params, "bind": bind})
+    return {"tasks": tasks, "ext": [[f"c{n - 1}", DEFAULT_OUT]], "hosts": 1, "workers": rng.choice([1, 1, 2]), "theme": "chain"}
 
 
 def ambiguate(spec, rng):
@@ -226,6 +503,18 @@ def features(spec):
                 f.add("outputs-declared-unsorted")
         if "." in t["name"]:
             f.add("dotted-task-name")
+        if t.get("gpu"):
+            f.add("gpu-task")
+        if t["ret"] in ("nd", "bytes", "box"):
+            f.add("value-" + t["ret"])
+            if any("src" in b and tuple(b["src"])[0] == t["name"] for u in spec["tasks"] for b in u["bind"]):
+                f.add("value-" + t["ret"] + "-consumed-downstream")
+    if spec.get("serdes"):
+        f.add("job-registers-serde")
+    if spec.get("gpus") is not None:
+        f.add("gpu-count-set")
+    if spec.get("theme"):
+        f.add("theme-" + spec["theme"])
     outs = {t["name"]: t["outs"] for t in spec["tasks"]}
     if any(o != outs[t][-1] and len(outs[t]) > 1 for (t, o) in srcs):
         f.add("consumer-of-non-last-output")
@@ -248,16 +537,16 @@ def func_source(t):
             star = True
         sig.append(p["n"] if "default" not in p else f"{p['n']}={_dec_static(p['default'])!r}")
     bound = "[" + ", ".join(f"({p['n']!r}, {p['n']})" for p in t["params"]) + "]"
-    ann = {"int": " -> int", "str": " -> str", "tuple": " -> tuple", "sum": ""}[t["ret"]] if len(t["outs"]) == 1 else ""
+    ann = {"int": " -> int", "str": " -> str", "tuple": " -> tuple", "bytes": " -> bytes"}.get(t["ret"], "") if len(t["outs"]) == 1 else ""
     if len(t["outs"]) == 1:
-        body = f"    return _val({t['ret']!r}, {t['name']!r}, 0, {bound})\n"
+        body = f"    _trace({t['name']!r})\n    return _val({t['ret']!r}, {t['name']!r}, 0, {bound})\n"
     else:
-        body = f"    _b = {bound}\n    for _i in range({len(t['outs'])}):\n        yield _val({t['ret']!r}, {t['name']!r}, _i, _b)\n"
+        body = f"    _trace({t['name']!r})\n    _b = {bound}\n    for _i in range({len(t['outs'])}):\n        yield _val({t['ret']!r}, {t['name']!r}, _i, _b)\n"
     return f"def f({', '.join(sig)}){ann}:\n{body}"
 
 
 def make_func(t):
-    g = {"__name__": "c01_generated", "_val": _val}
+    g = {"__name__": "c01_generated", "_val": _val, "_trace": _trace}
     exec(func_source(t), g)
     return g["f"]
 
@@ -282,6 +571,8 @@ def make_job(spec):
             tb = tb.model_copy(update={"static_input_ps": ps})
         if list(tb.definition.output_schema) != t["outs"]:
             tb = tb.model_copy(update={"definition": tb.definition.model_copy(update={"output_schema": {o: "Any" for o in t["outs"]}})})
+        if t.get("gpu"):
+            tb = tb.model_copy(update={"definition": tb.definition.model_copy(update={"needs_gpu": True})})
         jb = jb.with_node(t["name"], tb)
     for t in spec["tasks"]:
         for b in t["bind"]:
@@ -289,6 +580,9 @@ def make_job(spec):
                 jb = jb.with_edge(b["src"][0], t["name"], b["idx"] if b["how"] == "pos" else b["p"], b["src"][1])
     job = jb.build().get_or_raise()
     job.ext_outputs = [DatasetId(t, o) for t, o in spec["ext"]]
+    if spec.get("serdes"):
+        from cascade.low.core import type_enc
+        job.serdes = {type_enc(Box): (MOD + ".ser_box", MOD + ".des_box")}
     return job, funcs
 
 
@@ -331,43 +625,141 @@ def reference(spec):
 
 # ----------------------------------------------------------------------------- runner (subprocess)
 
+def _launch_executor(job, controller_address, workers, port_base, host, pidq):
+    """Harness-side executor launcher (forked from the runner): the real Executor; records the pids of the worker
+    processes it started (which pid is which worker is the executor's own business: `Executor.workers`)."""
+    import logging
+    logging.disable(logging.CRITICAL)
+    from cascade.executor.executor import Executor
+    ex = Executor(job, controller_address, workers, host, port_base, None)
+    pidq.put((host, {"exec": os.getpid(), "daddress": str(getattr(ex, "daddress", ""))}))
+    ex.register()
+    try:
+        rec = {"host": host, "exec": os.getpid(), "workers": {repr(w): (p.pid if p is not None else None) for w, p in ex.workers.items()},
+               "order": [repr(w) for w in ex.workers]}
+        tmp = os.path.join(TRACE_DIR, f".exec.{host}.tmp")
+        with open(tmp, "w") as f:
+            json.dump(rec, f)
+        os.rename(tmp, os.path.join(TRACE_DIR, f"exec.{host}.json"))
+    except Exception:
+        pass
+    ex.recv_loop()
+
+
 def runner_main(case):
     """Runs in the subprocess (`python -m ekw.c01_real <case json>`): executors (fork), Bridge, controller.impl.run."""
     import logging
+    import socket
     import warnings
+    global TRACE_DIR
     warnings.filterwarnings("ignore")
     logging.disable(logging.CRITICAL)
     from multiprocessing import get_context
     from ekw import c05_cluster as cl
     t0 = time.time()
     out = {"ended": None, "error": None, "outputs": {}, "phase": "setup"}
-    stats = {"transmits": 0, "fetches": 0, "sequences": 0}
+    spec = case["spec"]
+    TRACE_DIR = case.get("trace")
+
+    def _startup_timeout():
+        # the cluster did not come up (under heavy machine load a forked helper can deadlock in zmq/fork-with-threads): not a
+        # verdict about the job -- `run_real` starts the case again; only a cluster that NEVER comes up is reported
+        out["ended"] = "infra"
+        out["error"] = f"start-up: cluster of {spec['hosts']} host(s) x {spec['workers']} worker(s) not up within {STARTUP_S:.0f} s (phase {out['phase']})"
+        cl._emit(out)
+        os._exit(0)
+    wd = threading.Timer(STARTUP_S, _startup_timeout)
+    wd.daemon = True
+    wd.start()
     try:
+        if spec.get("gpus") is not None:
+            os.environ["CASCADE_GPU_COUNT"] = str(spec["gpus"])      # read by every Executor at construction
+        else:
+            os.environ.pop("CASCADE_GPU_COUNT", None)
         from cascade.controller.impl import run
         from cascade.executor.bridge import Bridge
         from cascade.scheduler.graph import precompute
-        job, _ = make_job(case["spec"])
+        job, _ = make_job(spec)
         pre = precompute(job)
         port, uid = case["port"], case["uid"]
         c = f"tcp://localhost:{port}"
         ctx = get_context("fork")
         pidq = ctx.Queue()
-        hosts = [f"{uid}h{i}" for i in range(case["spec"]["hosts"])]
+        hosts = [f"{uid}h{i}" for i in range(spec["hosts"])]
         for i, h in enumerate(hosts):
-            ctx.Process(target=cl._launch_executor, args=(job, c, case["spec"]["workers"], port + 1 + i * 10, h, pidq)).start()
+            ctx.Process(target=_launch_executor, args=(job, c, spec["workers"], port + 1 + i * 10, h, pidq)).start()
+        pids = {}
         for _ in hosts:
-            pidq.get(timeout=20)
+            h, d = pidq.get(timeout=20)
+            pids[h] = d
+        # START-UP gate (as in ekw.c05_cluster): every host's data server listens before the job starts, so that a hang seen
+        # after the first task body was entered is never excused as the fork-with-threads start-up deadlock
+        for h, d in pids.items():
+            addr = d.get("daddress", "")
+            if addr.startswith("tcp://"):
+                hp = addr[len("tcp://"):].rsplit(":", 1)
+                tend, ok = time.time() + 15.0, False
+                while time.time() < tend and not ok:
+                    try:
+                        socket.create_connection((hp[0], int(hp[1])), timeout=1.0).close()
+                        ok = True
+                    except OSError:
+                        time.sleep(0.1)
+                if not ok:
+                    raise RuntimeError(f"start-up: data server of {h} is not listening on {addr}")
         out["phase"] = "bridge"
         bridge = Bridge(c, len(hosts))
-        for name, key in (("transmit", "transmits"), ("fetch", "fetches"), ("task_sequence", "sequences")):
-            def wrap(orig=getattr(bridge, name), key=key):
-                def w(*a, **k):
-                    stats[key] += 1
-                    return orig(*a, **k)
-                return w
-            setattr(bridge, name, wrap())
+        try:
+            with open(os.path.join(TRACE_DIR, "env.json"), "w") as f:
+                json.dump({repr(w): {"gpu": v.gpu, "cpu": v.cpu} for w, v in bridge.get_environment().workers.items()}, f)
+        except Exception:
+            pass
+
+        def _wrap(name, describe):
+            orig = getattr(bridge, name)
+
+            def w(*a, **k):
+                try:
+                    _log_ctrl(dict(describe(*a, **k), cmd=name))
+                except Exception:
+                    _log_ctrl({"cmd": name})
+                return orig(*a, **k)
+            setattr(bridge, name, w)
+        _wrap("task_sequence", lambda ts: {"worker": repr(ts.worker), "host": ts.worker.host, "tasks": list(ts.tasks), "publish": sorted(_ds(d) for d in ts.publish)})
+        _wrap("transmit", lambda ds, source, target: {"ds": _ds(ds), "source": source, "target": target, "idx": bridge.transmit_idx_counter})
+        _wrap("fetch", lambda ds, source: {"ds": _ds(ds), "source": source, "idx": bridge.transmit_idx_counter})
+        _wrap("purge", lambda host, ds: {"ds": _ds(ds), "host": host})
+        _wrap("shutdown", lambda: {})
+        _recv = bridge.recv_events
+
+        def recv_events():
+            evs = _recv()
+            for e in evs:
+                try:
+                    if hasattr(e, "header"):      # DatasetTransmitPayload: a fetched value
+                        _log_ctrl({"cmd": "event", "type": "payload", "ds": _ds(e.header.ds), "idx": getattr(e.header, "confirm_idx", None)})
+                    else:                         # DatasetPublished by a worker, or by a data server after a transfer
+                        o = e.origin
+                        _log_ctrl({"cmd": "event", "type": "published", "ds": _ds(e.ds), "host": o if isinstance(o, str) else o.host,
+                                   "worker": None if isinstance(o, str) else repr(o), "idx": e.transmit_idx})
+                except Exception:
+                    _log_ctrl({"cmd": "event", "type": "?"})
+            return evs
+        bridge.recv_events = recv_events
+        wd.cancel()
         out["phase"] = "run"
         out["t_setup"] = round(time.time() - t0, 2)
+
+        def _job_timeout():
+            out["ended"] = "hang"
+            out["error"] = f"controller.impl.run did not return within {JOB_S:.0f} s"
+            out["t_run"] = round(time.time() - t1, 2)
+            cl._emit(out)
+            os._exit(0)
+        t1 = time.time()
+        wd2 = threading.Timer(JOB_S, _job_timeout)
+        wd2.daemon = True
+        wd2.start()
     except BaseException as e:
         out["ended"] = "infra"
         out["error"] = f"{type(e).__name__}: {e}"
@@ -376,12 +768,14 @@ def runner_main(case):
     t1 = time.time()
     try:
         state = run(job, bridge, pre)
+        wd2.cancel()
         out["ended"] = "ok"
-        out["outputs"] = {"values": {f"{k.task}|{k.output}": enc(v) for k, v in state.outputs.items()}, "stats": stats}
+        out["outputs"] = {"values": {f"{k.task}|{k.output}": enc(v) for k, v in state.outputs.items()}}
     except BaseException as e:
+        wd2.cancel()
         out["ended"] = "error"
         out["error"] = f"{type(e).__name__}: {str(e)[:300]}"
-        out["outputs"] = {"values": {}, "stats": stats}
+        out["outputs"] = {"values": {}}
     out["t_run"] = round(time.time() - t1, 2)
     cl._emit(out)
     os._exit(0)
@@ -389,151 +783,538 @@ def runner_main(case):
 
 # ----------------------------------------------------------------------------- check-process side
 
-def run_real(spec, deadline_s=30.0, settle_s=1.5):
-    """One real run. Returns c05_cluster's observation dict (ended: ok|error|hang). Infrastructure trouble raises InfraError."""
+_start_lock = threading.Lock()
+
+
+def run_real(spec, deadline_s=DEADLINE_S, settle_s=1.5):
+    """One real run. Returns c05_cluster's observation dict (ended: ok|error|hang) + "trace" (read_trace) + "stats" +
+    "job_started" (a task body was entered). Infrastructure trouble raises InfraError."""
     from ekw import c05_cluster as cl
     from ekw.core import InfraError
-    obs = None
+    obs, startup_fail = None, []
     for _attempt in range(3):
+        tdir = tempfile.mkdtemp(prefix="c01r_")
         try:
-            obs = cl.run_case({"spec": spec}, deadline_s=deadline_s, settle_s=settle_s, module="ekw.c01_real")
-        except (OSError, RuntimeError) as e:          # cannot fork / no free port range
-            raise InfraError(f"real-cluster run could not be started: {type(e).__name__}: {e}")
+            # run ids / port ranges of c05_cluster derive from (pid, millisecond, call counter): starts of concurrent runs are spaced
+            _start_lock.acquire()
+            threading.Timer(0.12, _start_lock.release).start()
+            try:
+                obs = cl.run_case({"spec": spec, "trace": tdir}, deadline_s=deadline_s, settle_s=settle_s, module=MOD)
+            except (OSError, RuntimeError) as e:          # cannot fork / no free port range
+                raise InfraError(f"real-cluster run could not be started: {type(e).__name__}: {e}")
+            tr = read_trace(tdir)
+        finally:
+            shutil.rmtree(tdir, ignore_errors=True)
+        obs["trace"] = tr
+        obs["job_started"] = bool(tr["bodies"])
+        obs["stats"] = stats_of(tr)
         if obs["ended"] != "infra":
+            obs["startup_retries"] = len(startup_fail)
             return obs
+        if str(obs.get("error") or "").startswith("start-up:"):
+            startup_fail.append(f"{obs['error']}; executors that registered their workers: {sorted(tr['execs'])}")
         time.sleep(0.5)
+    if len(startup_fail) == 3:
+        # the cluster never came up, three times in a row: that is a verdict (e.g. address collisions that only some shapes have)
+        obs.update(ended="hang", startup_never=True, error=" || ".join(startup_fail), startup_retries=3)
+        return obs
     raise InfraError(f"real-cluster run could not be set up (3 attempts): {obs.get('error')}")
 
 
-def judge(spec, ref, obs):
-    """Oracle from the property text. -> list of (kind, what)."""
-    shape = f"{spec['hosts']} host(s) x {spec['workers']} worker(s)"
-    if obs["ended"] == "hang":
-        return [("real-cluster-hang", f"run on {shape} did not end within the deadline ({obs.get('alive_at_deadline')} processes still alive)")]
-    if obs["ended"] == "error":
-        return [("real-cluster-error", f"run on {shape} raised {obs.get('error')} although no task fails under sequential evaluation")]
-    got = (obs.get("outputs") or {}).get("values", {})
+def stats_of(tr):
+    st = {"sequences": 0, "transmits": 0, "fetches": 0, "purges": 0, "shutdown_calls": 0, "bodies": len(tr["bodies"])}
+    key = {"task_sequence": "sequences", "transmit": "transmits", "fetch": "fetches", "purge": "purges", "shutdown": "shutdown_calls"}
+    for c in tr["ctrl"]:
+        if c.get("cmd") in key:
+            st[key[c["cmd"]]] += 1
+    return st
+
+
+def _progress(spec, obs):
+    st, tr = obs.get("stats") or {}, obs.get("trace") or {"ctrl": []}
+    fetched = {c["ds"] for c in tr["ctrl"] if c.get("cmd") == "fetch"}
+    want = {f"{t}|{o}" for t, o in spec["ext"]}
+    return (f"job started: {obs.get('job_started')}; {st.get('sequences', 0)} of {len(spec['tasks'])} tasks dispatched, {st.get('bodies', 0)} task bodies entered, "
+            f"{st.get('transmits', 0)} transfers, {st.get('purges', 0)} purges and fetches for {len(fetched & want)} of the {len(want)} requested outputs commanded, "
+            f"Bridge.shutdown entered: {bool(st.get('shutdown_calls'))}")
+
+
+def _devices(cuda, gpus):
+    """CUDA_VISIBLE_DEVICES -> the set of EXISTING devices (0..gpus-1) the process can use (unset: all of them)"""
+    if cuda is None:
+        return set(range(gpus))
+    out = set()
+    for x in str(cuda).split(","):
+        x = x.strip()
+        if not x.isdigit():
+            break                          # CUDA stops at the first entry it cannot parse
+        if int(x) < gpus:
+            out.add(int(x))
+    return out
+
+
+def judge_trace(spec, tr):
+    """Oracle over the trace of one run (any ending); nothing here reads the controller's State.
+      * a task body is entered at most once, and in the process of the worker the controller dispatched the task to
+        (C02's "dispatched exactly once, to that worker", which only a real cluster can show below the Bridge);
+      * a task that needs a GPU runs in a process that can use an existing device, and no other worker of that host that
+        ran a GPU task can use the same device ("at most one GPU per task": a device of its own);
+      * purges reach the workers: a task body entered after the controller had commanded purge(h, d) -- its task sequence
+        was issued later than the purge -- no longer finds d among the datasets its worker believes available on h.
+        Commands travel through separate sockets below the executor, so a single stale sighting proves nothing; the
+        verdict needs >= 3 sightings in the run with >= 3/4 of them stale;
+      * C04's clauses at the real Bridge (commands issued / events returned, in the controller's order): a transfer or fetch names
+        a source from which a DatasetPublished had arrived and whose purge had not been commanded; a purge is commanded only
+        after every consumer (from the job) has announced all its outputs, after the value of a requested dataset has arrived,
+        and not while a transfer / fetch commanded from that host is unanswered."""
     v = []
-    for key, want in ref.items():
-        if got.get(key) is None:
-            v.append(("real-cluster-missing-output", f"requested output {key} was not delivered by the run on {shape} (sequential value {want!r}); delivered: {sorted(got)}"))
-        elif got[key] != want:
-            v.append(("real-cluster-wrong-value", f"requested output {key}: run on {shape} delivered {got[key]!r}, sequential evaluation gives {want!r}"))
-    return v
+    info = {"purge_sightings": 0, "purge_stale": 0, "gpu_bodies": 0, "bodies_on_dispatch_worker": 0}
+    pid2w = {}
+    for h, e in tr["execs"].items():
+        for w, pid in (e.get("workers") or {}).items():
+            if pid is not None:
+                pid2w[pid] = (w, h)
+    for b in tr["bodies"]:                                    # launcher record missing (killed before it wrote): the worker's own word
+        if b["pid"] not in pid2w and b.get("worker"):
+            pid2w[b["pid"]] = (b["worker"], b["worker"].rsplit(".", 1)[0])
+    disp, seq_at = {}, {}
+    for i, c in enumerate(tr["ctrl"]):
+        if c.get("cmd") == "task_sequence":
+            for t in c.get("tasks", []):
+                disp.setdefault(t, []).append(c["worker"])
+                seq_at.setdefault(t, i)
+    by_task = {}
+    for b in tr["bodies"]:
+        by_task.setdefault(b["task"], []).append(b)
+    for t, bs in sorted(by_task.items()):
+        if len(bs) > 1:
+            v.append(("real-cluster-task-ran-twice", f"the body of task {t} was entered {len(bs)} times (processes {[b['pid'] for b in bs]}, workers {[pid2w.get(b['pid'], ('?',))[0] for b in bs]}); "
+                                                     f"the controller dispatched it {len(disp.get(t, []))} time(s)"))
+        for b in bs:
+            w = pid2w.get(b["pid"])
+            if w is None or t not in disp:
+                continue
+            if w[0] in disp[t]:
+                info["bodies_on_dispatch_worker"] += 1
+            else:
+                v.append(("real-cluster-wrong-worker", f"task {t} was dispatched to worker {disp[t]} (Bridge.task_sequence) but its body ran in process {b['pid']} = worker {w[0]}"
+                          + (f" (that worker's own entrypoint says it is {b['worker']})" if b.get("worker") else "")))
+    # GPU
+    gpus = spec.get("gpus")
+    gpu_tasks = {t["name"] for t in spec["tasks"] if t.get("gpu")}
+    if gpus is not None and gpu_tasks:
+        seen = []                                             # (host, pid, worker, task, devices)
+        for b in tr["bodies"]:
+            if b["task"] in gpu_tasks:
+                w = pid2w.get(b["pid"], (b.get("worker") or f"pid{b['pid']}", b.get("ppid")))
+                seen.append((w[1], b["pid"], w[0], b["task"], _devices(b.get("cuda"), gpus), b.get("cuda")))
+        info["gpu_bodies"] = len(seen)
+        for h, pid, w, t, dev, raw in seen:
+            if not dev:
+                v.append(("real-cluster-gpu-task-without-device", f"task {t} needs a GPU but ran on worker {w} with CUDA_VISIBLE_DEVICES={raw!r}: none of the host's {gpus} device(s) 0..{gpus - 1} is visible there"))
+        shared = set()
+        for i, (h, pid, w, t, dev, raw) in enumerate(seen):
+            for h2, pid2, w2, t2, dev2, raw2 in seen[i + 1:]:
+                if h == h2 and pid != pid2 and dev & dev2 and (w, w2) not in shared:
+                    shared.add((w, w2))
+                    v.append(("real-cluster-gpu-device-shared", f"GPU tasks {t} on worker {w} (CUDA_VISIBLE_DEVICES={raw!r}) and {t2} on worker {w2} (CUDA_VISIBLE_DEVICES={raw2!r}) of one host "
+                                                                f"can both use device(s) {sorted(dev & dev2)}: the workers of a host with {gpus} devices do not get a device each"))
+    # what crossed the Bridge, in the controller's order (C04's clauses, seen on a real cluster)
+    cons = {}                                                 # dataset -> tasks that read it
+    nouts = {t["name"]: len(t["outs"]) for t in spec["tasks"]}
+    for t in spec["tasks"]:
+        for b in t["bind"]:
+            if "src" in b:
+                cons.setdefault(f"{b['src'][0]}|{b['src'][1]}", set()).add(t["name"])
+    ext = {f"{t}|{o}" for t, o in spec["ext"]}
+    held, outs_seen, delivered, pending, purged_at = set(), {}, set(), {}, set()
+    for c in tr["ctrl"]:
+        k = c.get("cmd")
+        if k == "event" and c.get("type") == "published":
+            held.add((c["host"], c["ds"]))
+            if c.get("idx") is None:
+                outs_seen.setdefault(c["ds"].split("|", 1)[0], set()).add(c["ds"])
+            else:
+                pending.pop(c["idx"], None)
+        elif k == "event" and c.get("type") == "payload":
+            delivered.add(c["ds"])
+            pending.pop(c.get("idx"), None)
+        elif k in ("transmit", "fetch"):
+            info["log_transfers_fetches"] = info.get("log_transfers_fetches", 0) + 1
+            if (c["source"], c["ds"]) not in held or (c["source"], c["ds"]) in purged_at:
+                v.append(("real-cluster-source-does-not-hold", f"{k} of {c['ds']} commanded from host {c['source']}: " + ("the controller had commanded its purge there before" if (c["source"], c["ds"]) in purged_at
+                          else "no DatasetPublished for it from that host had reached the controller")))
+            pending[c.get("idx")] = (c["source"], c["ds"], k)
+        elif k == "purge":
+            info["log_purges"] = info.get("log_purges", 0) + 1
+            d, h = c["ds"], c["host"]
+            late = sorted(t for t in cons.get(d, ()) if len(outs_seen.get(t, ())) < nouts.get(t, 1))
+            if late:
+                v.append(("real-cluster-purge-before-consumers-done", f"purge of {d} on {h} commanded while its consumer(s) {late} had not completed (not all of their outputs had been announced to the controller)"))
+            if d in ext and d not in delivered:
+                v.append(("real-cluster-purge-before-delivered", f"purge of the requested output {d} on {h} commanded before its value had reached the caller (no payload event yet)"))
+            un = sorted(f"{kk} #{i}" for i, (src, dd, kk) in pending.items() if src == h and dd == d)
+            if un:
+                v.append(("real-cluster-purge-while-unanswered", f"purge of {d} on {h} commanded while {un} commanded from that host was still unanswered"))
+            purged_at.add((h, d))
+    # purges
+    stale = []
+    for b in tr["bodies"]:
+        if "avail" not in b or b["task"] not in seq_at:
+            continue
+        host = pid2w.get(b["pid"], (None, None))[1] or (b.get("worker") or "").rsplit(".", 1)[0]
+        purged = {c["ds"] for c in tr["ctrl"][:seq_at[b["task"]]] if c.get("cmd") == "purge" and c.get("host") == host}
+        info["purge_sightings"] += len(purged)
+        for d in sorted(purged & set(b["avail"])):
+            stale.append((b["task"], b.get("worker"), d))
+    info["purge_stale"] = len(stale)
+    if len(stale) >= 3 and 4 * len(stale) >= 3 * info["purge_sightings"]:
+        v.append(("real-cluster-purge-not-applied", f"{len(stale)} of {info['purge_sightings']} times a task body, dispatched after the controller had commanded the purge of a dataset on its host, "
+                                                    f"found that dataset still among those its worker believes available (entrypoint's availab_ds): e.g. task {stale[0][0]} on {stale[0][1]} still sees {stale[0][2]}; "
+                                                    "purge commands do not reach the workers"))
+    capped, n = [], {}
+    for k, w in v:                                            # at most 3 witnesses of a kind per run
+        n[k] = n.get(k, 0) + 1
+        if n[k] <= 3:
+            capped.append((k, w))
+    return capped, info
 
 
-def check_case(spec, ref=None, note=None):
-    """run + judge; a hang / error verdict counts only if an immediate re-run does not end cleanly either."""
+def judge(spec, ref, obs):
+    """Oracle from the property text (+ judge_trace). -> list of (kind, what)."""
+    shape = f"{spec['hosts']} host(s) x {spec['workers']} worker(s)" + (f", {spec['gpus']} GPU(s) per host" if spec.get("gpus") is not None else "")
+    v = []
+    if obs.get("startup_never"):
+        v.append(("real-cluster-hang", f"the cluster of {shape} did not come up in 3 attempts of {STARTUP_S:.0f} s each: {obs.get('error')}"))
+    elif obs["ended"] == "hang":
+        v.append(("real-cluster-hang", f"run on {shape}: controller.impl.run did not return within {JOB_S:.0f} s of its start (cluster start-up took {obs.get('t_setup')} s; {_progress(spec, obs)})"))
+    elif obs["ended"] == "error":
+        v.append(("real-cluster-error", f"run on {shape} raised {obs.get('error')} although no task fails under sequential evaluation ({_progress(spec, obs)})"))
+    else:
+        got = (obs.get("outputs") or {}).get("values", {})
+        for key, want in ref.items():
+            if got.get(key) is None:
+                v.append(("real-cluster-missing-output", f"requested output {key} was not delivered by the run on {shape} (sequential value {want!r}); delivered: {sorted(got)}"))
+            elif got[key] != want:
+                v.append(("real-cluster-wrong-value", f"requested output {key}: run on {shape} delivered {got[key]!r}, sequential evaluation gives {want!r}"))
+    tv, info = judge_trace(spec, obs.get("trace") or {"bodies": [], "ctrl": [], "execs": {}})
+    obs["trace_info"] = info
+    return v + tv
+
+
+def summary(obs):
+    return dict({k: obs.get(k) for k in ("ended", "error", "t_setup", "t_run", "wall", "job_started", "alive_at_deadline", "stats", "trace_info")},
+                delivered=sorted(((obs.get("outputs") or {}).get("values") or {})))
+
+
+def check_case(spec, ref=None, deadline_s=DEADLINE_S, on_first=None):
+    """run + judge -> (obs, [verdict dict(kind, what, sig)], runs | None).
+    Wrong / missing values and the trace verdicts always count (one witness is enough). A hang / error verdict:
+      * shows again on an immediate re-run of the same case                     -> reported;
+      * does not show again, but the job HAD STARTED in the failing run (the cluster had passed the start-up gate and a
+        task body had been entered)                                             -> reported with "reproduced": false
+                                                                                    and both runs in the replay;
+      * does not show again and no task body had been entered                   -> dropped (counted): the fork-with-threads
+        deadlock at cluster start-up under heavy machine load is outside C01.
+    `on_first(kinds)` (used by Batch): called with the hang / error kinds of the first run; when it returns a number n > 0, n OTHER
+    cases of the batch have shown the same kind in their first runs, which stands in for the re-run of this one."""
     if ref is None:
         ref = reference(spec)
-    obs = run_real(spec)
-    verdicts = judge(spec, ref, obs)
-    if verdicts and obs["ended"] in ("hang", "error"):
-        obs2 = run_real(spec, deadline_s=45.0)
-        v2 = judge(spec, ref, obs2)
-        if note is not None:
-            note(obs["ended"], bool(v2))
-        obs2["first_attempt"] = {"ended": obs["ended"], "error": obs.get("error")}
-        obs, verdicts = obs2, v2
-    return obs, verdicts
+    obs = run_real(spec, deadline_s)
+    vs = [{"kind": k, "what": w, "sig": {"kind": k}} for k, w in judge(spec, ref, obs)]
+    runs = None
+    bad = [x for x in vs if x["kind"] in ("real-cluster-hang", "real-cluster-error")]
+    if bad and obs.get("startup_never"):
+        for x in bad:
+            x["sig"] = {"kind": x["kind"], "where": "start-up"}
+    elif bad and on_first is not None and (n_other := on_first({x["kind"] for x in bad})):
+        for x in bad:
+            x["what"] += f" [not run again: {n_other} other case(s) of this batch showed the same verdict in their first run]"
+    elif bad:
+        obs2 = run_real(spec, deadline_s)
+        kinds2 = {k for k, _ in judge(spec, ref, obs2)}
+        runs = [summary(obs), summary(obs2)]
+        obs["second_run"] = runs[1]
+        keep = []
+        for x in vs:
+            if x not in bad or x["kind"] in kinds2:
+                keep.append(x)
+            elif obs.get("job_started"):
+                x["sig"] = {"kind": x["kind"], "reproduced": False}
+                x["what"] += f" [the job HAD started; the immediate re-run of the same case ended {runs[1]['ended']}" + (f" ({runs[1]['error']})" if runs[1].get("error") else "") + "]"
+                keep.append(x)
+            else:
+                obs.setdefault("dropped", []).append(x["kind"])
+        vs = keep
+    return obs, vs, runs
+
+
+# ----- the batch of runs of one check: planned from one seed, executed by a few threads while the check goes on
+
+def plan(seed, quick):
+    """-> [(seed_i, spec)]: the quick tier runs one case of every family; the thorough tier 48 cases."""
+    rng = random.Random(seed)
+    if quick:
+        fam = [("dense", None), ("dense+ambiguous", None), ("dense", "three-hosts"), ("dense", "gpu"), ("dense", "serde"), ("any", "wide-gpu"), ("any", "chain"), ("any", None)]
+    else:
+        cyc = [("dense", None), ("dense+ambiguous", None), ("dense", "three-hosts"), ("dense", "gpu"), ("dense", "serde"), ("any", "chain"), ("any", None), ("any", "three-hosts"),
+               ("dense", None), ("any+ambiguous", None), ("any", "gpu"), ("any", "serde")]
+        fam = [cyc[i % len(cyc)] for i in range(46)] + [("any", "wide-gpu"), ("any", "wide-gpu")]
+    out = []
+    for kind, theme in fam:
+        s = rng.randrange(1 << 30)
+        out.append((s, build_spec(s, kind, theme)))
+    return out
+
+
+def build_spec(seed, kind, theme):
+    grng = random.Random(seed)
+    spec = gen_spec(grng, dense=kind.startswith("dense"), theme=theme)
+    if kind.endswith("+ambiguous"):
+        spec = ambiguate(spec, grng)
+    spec["seed"] = seed
+    spec["family"] = kind + ("/" + theme if theme else "")
+    spec["hashseed"] = seed % 4294967295      # the scheduler iterates sets of strings: placement is a function of the hash seed
+    return spec
+
+
+class Batch:
+    def __init__(self, items, conc=3):
+        self.items = list(items)                  # [(seed, spec)]
+        # the sequential references are computed here, in the caller's thread (the project's builders run in-process; the
+        # threads below only wait for subprocesses and judge)
+        self.refs = []
+        for _seed, spec in self.items:
+            try:
+                self.refs.append((True, reference(spec)))
+            except Exception as e:
+                self.refs.append((False, f"{type(e).__name__}: {str(e)[:300]}"))
+        self.results = {}                         # index -> (ref, obs, verdicts, runs) | ("build-error", text) | ("skipped",) | ("crash", exc)
+        self._next = 0
+        self.first_bad = {}                       # index -> hang / error kinds its first run showed
+        self._lock = threading.Lock()
+        self.stop = threading.Event()
+        self.t0 = self.t_done = time.time()
+        self.threads = [threading.Thread(target=self._work, daemon=True) for _ in range(min(conc, len(self.items)))]
+        for th in self.threads:
+            th.start()
+
+    def _work(self):
+        while True:
+            with self._lock:
+                i = self._next
+                self._next += 1
+            if i >= len(self.items):
+                self.t_done = time.time()
+                return
+            if self.stop.is_set():
+                self.results[i] = ("skipped",)
+                continue
+            seed, spec = self.items[i]
+            try:
+                ok, ref = self.refs[i]
+                if not ok:
+                    self.results[i] = ("build-error", ref)
+                    continue
+                def on_first(kinds, i=i):
+                    with self._lock:
+                        self.first_bad[i] = set(kinds)
+                        n_other = sum(1 for j, k in self.first_bad.items() if j != i and k & set(kinds))
+                        if len(self.first_bad) >= 2:
+                            self.stop.set()       # two cases with a hang / error in their first run: no further case is started
+                    return n_other
+                obs, vs, runs = check_case(spec, ref, on_first=on_first)
+                self.results[i] = (ref, obs, vs, runs)
+            except BaseException as e:            # InfraError included: re-raised in the check's own thread
+                self.results[i] = ("crash", e)
+
+    def join(self):
+        for th in self.threads:
+            th.join(len(self.items) * (2 * DEADLINE_S + 60.0))
+
+
+def start_real(ctx, conc=3):
+    """Starts the real-cluster runs of this check in background threads (they mostly wait for subprocesses) and returns at
+    once; `finish_real` collects. Seeds derive from the check's seed (VERIF_SEED) without consuming ctx.rng, so the cases of
+    the SimBridge part are the same whether or not the real runs take place."""
+    seed = int.from_bytes(hashlib.sha256(f"C01-real-{ctx.seed}-{ctx.tier}".encode()).digest()[:6], "big")
+    return Batch(plan(seed, ctx.quick), conc)
+
+
+def _account(ctx, seed, spec, res):
+    case = {"real": spec}
+    feats = features(spec)
+    ctx.case(case, nontrivial=True)
+    ctx.count("real:runs")
+    ctx.count(f"real:family={spec.get('family')}")
+    ctx.count(f"real:shape={spec['hosts']}x{spec['workers']}")
+    ctx.count(f"real:hosts={spec['hosts']}")
+    ctx.count(f"real:tasks={len(spec['tasks'])}")
+    for f in feats:
+        ctx.count("real:has:" + f)
+    if res[0] == "build-error":
+        ctx.violation({"kind": "real-cluster-error", "where": "build"}, case, f"building / evaluating the job with the project's builders raised {res[1]}")
+        return None
+    ref, obs, vs, runs = res
+    ctx.traces += 1
+    ctx.count("real:ended=" + obs["ended"])
+    st, ti = obs.get("stats") or {}, obs.get("trace_info") or {}
+    for k in ("sequences", "transmits", "fetches", "purges", "bodies"):
+        ctx.count("real:" + k, st.get(k, 0))
+    if st.get("transmits", 0) > 0:
+        ctx.count("real:runs-with-inter-host-transfer")
+    if st.get("purges", 0) > 0:
+        ctx.count("real:runs-with-purge")
+    for k in ("purge_sightings", "purge_stale", "gpu_bodies", "bodies_on_dispatch_worker", "log_transfers_fetches", "log_purges"):
+        ctx.count("real:trace:" + k, ti.get(k, 0))
+    if runs is not None:
+        ctx.count("real:confirm-runs")
+    if obs.get("startup_retries"):
+        ctx.count("real:start-up-retries", obs["startup_retries"])
+    for k in obs.get("dropped", []):
+        ctx.count("real:flaky-startup-" + k)
+        ctx.notes.append(f"real-cluster {k} before any task body was entered, not reproduced on re-run (start-up flake, ignored), seed {seed}")
+    ctx.extra.setdefault("real_runs", []).append({"seed": seed, "family": spec.get("family"), "shape": [spec["hosts"], spec["workers"]], "gpus": spec.get("gpus"), "tasks": len(spec["tasks"]),
+                                                  "ext": len(spec["ext"]), "ended": obs["ended"], "t_setup": obs.get("t_setup"), "t_run": obs.get("t_run"), "wall": obs.get("wall"),
+                                                  "stats": st, "verdicts": sorted({x["kind"] for x in vs})})
+    seen = set()
+    for x in vs:
+        key = json.dumps(x["sig"], sort_keys=True)
+        if key in seen:
+            continue
+        seen.add(key)
+        if x["sig"].get("reproduced") is False:
+            ctx.count("real:unreproduced-after-start-" + x["kind"])
+        ctx.violation(x["sig"], dict(case, runs=runs) if runs else case,
+                      f"{x['what']} [job of {len(spec['tasks'])} tasks, family {spec.get('family')}, generator seed {seed}; features: {', '.join(feats)}]")
+    return st
+
+
+def finish_real(ctx, batch):
+    from ekw.core import InfraError
+    batch.join()
+    t_top = time.time()
+    tot = {"transmits": 0, "purges": 0}
+    for i, (seed, spec) in enumerate(batch.items):
+        res = batch.results.get(i)
+        if res is None:
+            raise InfraError(f"real-cluster run {i} (seed {seed}) did not come back from its thread")
+        if res[0] == "skipped":
+            ctx.count("real:skipped-after-enough-failing-inputs")
+            continue
+        if res[0] == "crash":
+            if isinstance(res[1], InfraError):
+                raise res[1]
+            raise RuntimeError(f"real-cluster harness crashed on seed {seed}: {type(res[1]).__name__}: {res[1]}")
+        st = _account(ctx, seed, spec, res)
+        for k in tot:
+            tot[k] += (st or {}).get(k, 0)
+    if batch.stop.is_set():
+        ctx.notes.append("real-cluster runs stopped early: enough failing inputs")
+    # the tier must have seen at least one inter-host transfer and one purge on a real cluster: top up with dense 2-host cases
+    extra = random.Random(batch.items[0][0] ^ 0x5EED if batch.items else 0)
+    tries = 0
+    while not batch.stop.is_set() and (tot["transmits"] == 0 or tot["purges"] == 0) and tries < 4:
+        tries += 1
+        seed = extra.randrange(1 << 30)
+        spec = build_spec(seed, "dense", "three-hosts")       # 3 hosts x 1-3 workers, workers+1 sources: ~7 of 8 such runs transfer
+        ctx.count("real:top-up-runs")
+        try:
+            ref = reference(spec)
+            res = (ref,) + check_case(spec, ref)
+        except InfraError:
+            raise
+        except Exception as e:
+            res = ("build-error", f"{type(e).__name__}: {str(e)[:300]}")
+        st = _account(ctx, seed, spec, res)
+        for k in tot:
+            tot[k] += (st or {}).get(k, 0)
+    if tot["transmits"] == 0 or tot["purges"] == 0:
+        if not batch.stop.is_set():
+            ctx.notes.append(f"real-cluster runs of this tier saw {tot['transmits']} inter-host transfers and {tot['purges']} purges")
+    # wall of the real-cluster part itself: the batch (it ran beside the SimBridge part) + the top-up runs done here
+    ctx.extra["real_wall_s"] = round((batch.t_done - batch.t0) + (time.time() - t_top), 2)
 
 
 def correspond_real(ctx):
-    """3 (quick) / 40 (thorough) end-to-end runs; the first three of either tier and every second one after them are
-    `dense` cases, the others unconstrained random ones (incl. 2-task jobs, 1 host x 1 worker)."""
-    n = ctx.budget(3, 40)
-    t0 = time.time()
-    reported = 0
-    for i in range(n):
-        seed = ctx.rng.randrange(1 << 30)
-        grng = random.Random(seed)
-        spec = gen_spec(grng, dense=i < 3 or i % 2 == 1)
-        if i % 3 == 1:
-            spec = ambiguate(spec, grng)
-            ctx.count("real:ambiguous-name-concatenation")
-        spec["seed"] = seed
-        case = {"real": spec}
-        feats = features(spec)
-        ctx.case(case, nontrivial=True)
-        ctx.count("real:runs")
-        ctx.count(f"real:shape={spec['hosts']}x{spec['workers']}")
-        ctx.count(f"real:tasks={len(spec['tasks'])}")
-        for f in feats:
-            ctx.count("real:has:" + f)
-        try:
-            ref = reference(spec)
-        except Exception as e:
-            ctx.violation({"kind": "real-cluster-error", "where": "build"}, case, f"building / evaluating the job with the project's builders raised {type(e).__name__}: {str(e)[:300]}")
-            continue
-
-        def note(first, still_bad):
-            ctx.count("real:confirm-runs")
-            if not still_bad:
-                ctx.count("real:flaky-" + first)
-                ctx.notes.append(f"real-cluster run {first} not reproduced on re-run (ignored), seed {seed}")
-        obs, verdicts = check_case(spec, ref, note)
-        ctx.traces += 1
-        ctx.count("real:ended=" + obs["ended"])
-        st = (obs.get("outputs") or {}).get("stats") or {}
-        ctx.count("real:transmits", st.get("transmits", 0))
-        ctx.count("real:fetches", st.get("fetches", 0))
-        if st.get("transmits", 0) > 0:
-            ctx.count("real:runs-with-inter-host-transfer")
-        ctx.extra.setdefault("real_runs", []).append({"seed": seed, "shape": [spec["hosts"], spec["workers"]], "tasks": len(spec["tasks"]), "ext": len(spec["ext"]),
-                                                      "ended": obs["ended"], "t_setup": obs.get("t_setup"), "t_run": obs.get("t_run"), "wall": obs.get("wall"),
-                                                      "transmits": st.get("transmits"), "verdicts": sorted({k for k, _ in verdicts})})
-        seen = set()
-        for kind, what in verdicts:
-            if kind in seen:
-                continue
-            seen.add(kind)
-            ctx.violation({"kind": kind}, case, f"{what} [job of {len(spec['tasks'])} tasks, generator seed {seed}; features: {', '.join(feats)}]")
-            reported += 1
-        if sum(1 for v in ctx.violations if v["signature"].get("kind") in ("real-cluster-hang", "real-cluster-error")) >= 2 or reported >= 6:
-            ctx.notes.append("real-cluster runs stopped early: enough failing inputs")
-            break
-    ctx.extra["real_wall_s"] = round(time.time() - t0, 2)
+    """all real-cluster runs of the tier, synchronously (see start_real / finish_real)"""
+    finish_real(ctx, start_real(ctx))
 
 
 def replay(case):
     spec = case["real"]
-    print(f"real-cluster case: {spec['hosts']} host(s) x {spec['workers']} worker(s), generator seed {spec.get('seed')}, features: {features(spec)}")
+    print(f"real-cluster case: {spec['hosts']} host(s) x {spec['workers']} worker(s)" + (f", CASCADE_GPU_COUNT={spec['gpus']}" if spec.get("gpus") is not None else "")
+          + (", job registers a serde for Box" if spec.get("serdes") else "") + f", family {spec.get('family')}, generator seed {spec.get('seed')}, features: {features(spec)}")
     for t in spec["tasks"]:
-        print(f"--- task {t['name']}  outputs (declaration order) {t['outs']}")
+        print(f"--- task {t['name']}  outputs (declaration order) {t['outs']}" + ("  needs_gpu" if t.get("gpu") else ""))
         print(func_source(t), end="")
         for b in t["bind"]:
             where = f"position {b['idx']}" if b["how"] == "pos" else f"keyword {b['p']}"
             print(f"    {where} <- " + (f"dataset {b['src'][0]}|{b['src'][1]}" if "src" in b else f"static {_dec_static(b['val'])!r}"))
+    if case.get("runs"):
+        print("recorded: the verdict showed in the first of these two consecutive runs of the case only:")
+        for r in case["runs"]:
+            print("   ", r)
     ref = reference(spec)
     print("requested + sequential reference:", json.dumps(ref))
-    obs, verdicts = check_case(spec, ref)
-    print("real run:", {k: obs.get(k) for k in ("ended", "error", "t_setup", "t_run", "wall", "first_attempt")})
-    print("delivered:", json.dumps((obs.get("outputs") or {}).get("values")), "stats:", (obs.get("outputs") or {}).get("stats"))
-    for kind, what in verdicts:
-        print("ORACLE:", kind, "--", what)
-    if not verdicts:
+    obs, vs, runs = check_case(spec, ref)
+    print("real run:", summary(obs))
+    print("delivered:", json.dumps((obs.get("outputs") or {}).get("values")))
+    tr = obs.get("trace") or {}
+    print("commands (in the controller's order):", [(c.get("cmd"), c.get("worker") or c.get("host") or c.get("source"), c.get("tasks") or c.get("ds")) for c in tr.get("ctrl", [])])
+    print("task bodies:", [(b["task"], b.get("worker"), b["pid"], b.get("cuda")) for b in tr.get("bodies", [])])
+    for x in vs:
+        print("ORACLE:", x["kind"], "--", x["what"])
+    if not vs:
         print("oracle: ok")
-    return 1 if verdicts else 0
+    return 1 if vs else 0
 
 
-if __name__ == "__main__":
-    if sys.argv[1:2] == ["--stats"]:
-        # development aid: python -m ekw.c01_real --stats N [seed0]  -> runs N random cases, prints shape/feature distribution + timings
-        n, s0 = int(sys.argv[2]), int(sys.argv[3]) if len(sys.argv) > 3 else 0
+def _main(argv):
+    if argv[1:2] == ["--stats"]:
+        # development aid: python -m ekw.c01_real --stats N [seed0] [--dense] [--theme=T] [--dry] -> runs N random cases, prints shape/feature distribution + timings
+        n, s0 = int(argv[2]), int(argv[3]) if len(argv) > 3 and argv[3].isdigit() else 0
+        theme = ([a.split("=", 1)[1] for a in argv if a.startswith("--theme=")] or [None])[0]
         dist, bad = {}, 0
         for i in range(n):
-            spec = gen_spec(random.Random(s0 + i), dense="--dense" in sys.argv)
-            spec["seed"] = s0 + i
-            if "--dry" in sys.argv:
+            spec = build_spec(s0 + i, "dense" if "--dense" in argv else "any", theme)
+            if "--dry" in argv:
                 reference(spec)
                 obs, vs = {"ended": "dry", "outputs": {}}, []
             else:
-                obs, vs = check_case(spec)
-            st = (obs.get("outputs") or {}).get("stats") or {}
-            for f in features(spec) + [f"shape={spec['hosts']}x{spec['workers']}", f"tasks={len(spec['tasks'])}"] + (["run-with-transfer"] if st.get("transmits") else []):
+                obs, vs, _ = check_case(spec)
+            st = obs.get("stats") or {}
+            for f in features(spec) + [f"shape={spec['hosts']}x{spec['workers']}", f"tasks={len(spec['tasks'])}"] + (["run-with-transfer"] if st.get("transmits") else []) + (["run-with-purge"] if st.get("purges") else []):
                 dist[f] = dist.get(f, 0) + 1
             bad += bool(vs)
-            print(s0 + i, obs["ended"], obs.get("t_setup"), obs.get("t_run"), obs.get("wall"), st, [k for k, _ in vs], flush=True)
+            print(s0 + i, obs["ended"], obs.get("t_setup"), obs.get("t_run"), obs.get("wall"), st, obs.get("trace_info"), [x["kind"] for x in vs], flush=True)
+            for x in vs:
+                print("   ", x["what"][:400])
         print(json.dumps(dist, sort_keys=True, indent=1), "failing:", bad)
+    elif argv[1:2] == ["--batch"]:
+        # development aid: python -m ekw.c01_real --batch SEED [thorough] -> the real-cluster part of one check run, verdicts printed
+        from ekw.core import Ctx
+        ctx = Ctx("C01", "thorough" if "thorough" in argv else "quick", int(argv[2]))
+        correspond_real(ctx)
+        for r in ctx.extra.get("real_runs", []):
+            print(r)
+        for v in ctx.violations:
+            print("VIOLATION", v["signature"], v["what"][:700])
+        print({k: v for k, v in sorted(ctx.dist.items()) if not k.startswith("real:has:")})
+        print("notes:", ctx.notes, "wall:", ctx.extra.get("real_wall_s"), "violations:", len(ctx.violations))
     else:
-        runner_main(json.loads(sys.argv[1]))
+        case = json.loads(argv[1])
+        hs = str(case.get("spec", {}).get("hashseed", 0))
+        if os.environ.get("PYTHONHASHSEED") != hs:
+            # same pid / session / stdout: the runner starts over with the hash seed recorded in the case, so that the re-run of a
+            # case (and its replay) meets the same set iteration orders in the scheduler, i.e. the same placement decisions
+            os.environ["PYTHONHASHSEED"] = hs
+            os.execv(sys.executable, [sys.executable, "-m", MOD, argv[1]])
+        runner_main(case)
+
+
+if __name__ == "__main__":
+    # re-enter under the importable name: Box, ser_box, des_box and TRACE_DIR must be those of `ekw.c01_real` (the serde
+    # functions are resolved by that name in every process; task functions are pickled with references to it)
+    import importlib
+    importlib.import_module(MOD)._main(sys.argv)
